@@ -610,6 +610,7 @@ struct SrcTask {
     cfg: SourceConfig,
     nops: u64,
     spacing_bias: u64,
+    scenario: bool,
 }
 
 impl SrcTask {
@@ -707,17 +708,17 @@ impl SrcTask {
     async fn run(mut self) {
         let (mut id, mut h) = self.register();
         let mut usable = false;
-        if !chance("src.start-unusable", 0.15) {
+        if self.scenario || !chance("src.start-unusable", 0.15) {
             self.push_op(id, Op::Usable(true));
             h.set_usable(true);
             usable = true;
         }
         for _ in 0..self.nops {
-            if simkit::out_of_budget() {
+            if simkit::out_of_budget() || exec::has_crashed() {
                 break;
             }
             // spacing: at least 1 ms beyond the exchange itself
-            let k = weighted("src.spacing", &[6, 6, 5, 4, 3, 2, 2, 1, 1, 1]) as u64 + self.spacing_bias;
+            let k = if self.scenario { 1 + choose("src.spacing", 5) } else { weighted("src.spacing", &[6, 6, 5, 4, 3, 2, 2, 1, 1, 1]) as u64 + self.spacing_bias };
             let wait_ns = match k {
                 0 => 1_000_000 + choose("src.sp.ms", 999) * 1_000_000,
                 k => {
@@ -727,7 +728,7 @@ impl SrcTask {
                 }
             };
             exec::sleep_ns(wait_ns).await;
-            match weighted("src.op", &[70, 6, 4, 3, 3]) {
+            match if self.scenario { 0 } else { weighted("src.op", &[70, 6, 4, 3, 3]) } {
                 0 => self.one_measurement(id, &mut h).await,
                 1 => {
                     usable = !usable;
@@ -744,6 +745,9 @@ impl SrcTask {
                     drop(h);
                     if chance("src.readd-delay", 0.5) {
                         exec::sleep_ns(choose("src.readd.ns", 5_000_000_000)).await;
+                    }
+                    if exec::has_crashed() {
+                        return;
                     }
                     fault("source-readd");
                     let (nid, nh) = self.register();
@@ -774,6 +778,9 @@ impl SrcTask {
             }
         }
         // orderly end: drop the source
+        if exec::has_crashed() {
+            return;
+        }
         self.push_op(id, Op::Drop);
         ev!("src{} final drop id={id}", self.idx);
         drop(h);
@@ -795,13 +802,35 @@ pub fn run() {
     let focus = simkit::focus();
 
     // ---- swarm configuration -------------------------------------------------
-    let clean = chance("cfg.faulty", 0.75) == false;
-    let n_src = 2 + choose("cfg.nsrc", 8) as usize; // 2..=9
+    // C01 converse / bounded liveness (DESIGN §5 C01): honest low-jitter servers agree on a large
+    // offset D chosen clearly inside or clearly outside the startup threshold; the daemon must then
+    // step by about -D, or stop without stepping. Only part of the C01 batch; always fault-free.
+    let scenario = focus == "C01" && chance("cfg.c01-scenario", 0.3);
+    let clean = scenario || chance("cfg.faulty", 0.75) == false;
+    let n_src = if scenario { 2 + choose("cfg.nsrc", 3) as usize } else { 2 + choose("cfg.nsrc", 8) as usize }; // 2..=9
     let mut sync = SynchronizationConfig::default();
     sync.minimum_agreeing_sources = 1 + weighted("cfg.minagree", &[4, 3, 2, 1]);
     sync.startup_step_panic_threshold = swarm_threshold("cfg.thr.startup");
     sync.single_step_panic_threshold = swarm_threshold("cfg.thr.single");
     sync.accumulated_step_panic_threshold = [None, Some(0.1), Some(10.0), Some(1000.0)][choose("cfg.thr.acc", 4) as usize].map(NtpDuration::from_seconds);
+    let mut scenario_d = 0.0f64;
+    let mut scenario_big = false;
+    if scenario {
+        let thr = [None, Some(1800.0), Some(10.0), Some(1.0)][choose("sc.thr", 4) as usize];
+        sync.startup_step_panic_threshold = StepThreshold {
+            forward: thr.map(NtpDuration::from_seconds),
+            backward: thr.map(NtpDuration::from_seconds),
+        };
+        sync.single_step_panic_threshold = StepThreshold { forward: None, backward: None };
+        sync.accumulated_step_panic_threshold = None;
+        sync.minimum_agreeing_sources = sync.minimum_agreeing_sources.min(n_src);
+        scenario_big = thr.is_some() && chance("sc.big", 0.5);
+        let mag = match thr {
+            None => 5000.0,
+            Some(t) => if scenario_big { 3.0 * t } else { 0.3 * t },
+        };
+        scenario_d = if chance("sc.neg", 0.5) { -mag } else { mag };
+    }
     let mut algo = AlgorithmConfig::default();
     algo.step_threshold = [0.010, 0.0, 0.128, 1e-4, 10.0][choose("cfg.stepthr", 5) as usize];
     algo.maximum_frequency_steer = [495e-6, 100e-6, 1e-6, 5e-3][choose("cfg.maxfreq", 4) as usize];
@@ -811,7 +840,10 @@ pub fn run() {
     if chance("cfg.ignore-disp", 0.2) {
         algo.ignore_server_dispersion = true;
     }
-    let kernel_freq = [0.0, 20e-6, -400e-6, 2.0 * algo.maximum_frequency_steer, -1.5 * algo.maximum_frequency_steer][weighted("cfg.kfreq", &[4, 2, 2, 1, 1])];
+    if scenario {
+        algo = AlgorithmConfig::default();
+    }
+    let kernel_freq = if scenario { 0.0 } else { 1.0 } * [0.0, 20e-6, -400e-6, 2.0 * algo.maximum_frequency_steer, -1.5 * algo.maximum_frequency_steer][weighted("cfg.kfreq", &[4, 2, 2, 1, 1])];
     if kernel_freq.abs() > algo.maximum_frequency_steer {
         fault("bad-initial-kernel-freq");
     }
@@ -825,7 +857,7 @@ pub fn run() {
         }
         _ => 100u64 << 32,
     };
-    let init_off = [0.0, 0.004, -0.3, 1.5, -90.0, 2500.0, -100_000.0][weighted("cfg.initoff", &[4, 3, 3, 2, 2, 1, 1])];
+    let init_off = if scenario { scenario_d } else { [0.0, 0.004, -0.3, 1.5, -90.0, 2500.0, -100_000.0][weighted("cfg.initoff", &[4, 3, 3, 2, 2, 1, 1])] };
 
     let sh: Shared = Arc::new(Mutex::new(Oracle {
         sync,
@@ -861,14 +893,16 @@ pub fn run() {
         let ctrl: Arc<Ctrl> = Arc::new(Ctrl::new(clock.clone(), sync, algo).expect("controller"));
         ctrl.take_control().expect("take_control");
         let c2 = ctrl.clone();
-        let ctl_task = exec::spawn("controller", async move { c2.run().await });
+        // non-critical: when the daemon stops ("Threshold exceeded") the source tasks notice,
+        // wind down, and the end-of-run checks still execute
+        let ctl_task = exec::spawn_noncritical("controller", async move { c2.run().await });
 
         let limits_opts = [(4u8, 10u8), (0, 17), (6, 6), (3, 8)];
         let mut tasks = vec![];
         let (done_tx, mut done_rx) = tokio::sync::mpsc::unbounded_channel::<usize>();
         let heavy = focus == "C06" || chance("cfg.extreme", 0.3);
         let kinds: Vec<Kind> = (0..n_src)
-            .map(|_| match weighted("cfg.kind", &[8, 1, 1]) {
+            .map(|_| match if scenario { 0 } else { weighted("cfg.kind", &[8, 1, 1]) } {
                 0 => Kind::TwoWay,
                 1 => Kind::OneWay,
                 _ => Kind::Periodic,
@@ -896,12 +930,12 @@ pub fn run() {
             let truth = ServerTruth {
                 err,
                 falseticker,
-                base_delay: [0.0002, 0.005, 0.04, 0.0, 0.4][choose("cfg.delay", 5) as usize],
-                jitter: [0.0, 0.00005, 0.002, 0.05][choose("cfg.jitter", 4) as usize],
-                asym: [0.0, 0.1, -0.5, 0.9][weighted("cfg.asym", &[5, 2, 1, 1])],
+                base_delay: [0.0002, 0.005, 0.04, 0.0, 0.4][choose("cfg.delay", if scenario { 3 } else { 5 }) as usize],
+                jitter: [0.0, 0.00005, 0.002, 0.05][choose("cfg.jitter", if scenario { 2 } else { 4 }) as usize],
+                asym: if scenario { 0.0 } else { [0.0, 0.1, -0.5, 0.9][weighted("cfg.asym", &[5, 2, 1, 1])] },
                 leap,
-                root_delay: [0.001, 0.0, 0.05, 2.0][choose("cfg.rootdelay", 4) as usize],
-                root_disp: [0.001, 0.0, 0.02, 1.0][choose("cfg.rootdisp", 4) as usize],
+                root_delay: [0.001, 0.0, 0.05, 2.0][choose("cfg.rootdelay", if scenario { 2 } else { 4 }) as usize],
+                root_disp: [0.001, 0.0, 0.02, 1.0][choose("cfg.rootdisp", if scenario { 2 } else { 4 }) as usize],
                 extreme: heavy && !clean,
                 huge_ok: !has_periodic,
             };
@@ -918,8 +952,9 @@ pub fn run() {
                     poll_interval_limits: limits,
                     initial_poll_interval: limits.min,
                 },
-                nops: 10 + choose("cfg.nops", 120),
-                spacing_bias: if chance("cfg.slowpoll", 0.15) { 6 } else { 0 },
+                nops: if scenario { 40 } else { 10 + choose("cfg.nops", 120) },
+                spacing_bias: if !scenario && chance("cfg.slowpoll", 0.15) { 6 } else { 0 },
+                scenario,
             };
             let tx = done_tx.clone();
             tasks.push(exec::spawn(format!("src{idx}"), async move {
@@ -970,6 +1005,12 @@ pub fn run() {
         for _ in 0..20 {
             exec::yield_now().await;
         }
+        // remaining error of the client clock when the last source stopped (before the idle tail,
+        // during which a residual frequency correction would integrate with nobody measuring)
+        let remaining_at_end = {
+            let true_now = epoch_true.wrapping_add(ticks(simkit::now_ns()));
+            fixed_to_secs(clock.raw_now().wrapping_sub(true_now) as i64)
+        };
         exec::sleep_ns(2_000_000_000_000).await; // let a pending slew end
         let ctl_alive = exec::task_alive(ctl_task);
         let crashes = exec::crashes();
@@ -987,6 +1028,37 @@ pub fn run() {
                 }
             } else {
                 simkit::abort(format!("harness task {task} crashed: {msg}"));
+            }
+        }
+        // C01 converse: the consensus-large-offset scenario must end in a step by about -D or in a stop
+        if scenario && !simkit::out_of_budget() {
+            let steps: Vec<i64> = clock
+                .calls_since(0)
+                .iter()
+                .filter_map(|c| if let ClockCall::Step(d) = c.call { Some(d) } else { None })
+                .collect();
+            let stopped = sh2.lock().unwrap().stopped;
+            if scenario_big {
+                probe("scenario-outside-threshold");
+                check!(
+                    "C01",
+                    "offset-outside-startup-threshold-stops-without-stepping",
+                    stopped && steps.is_empty(),
+                    "all {n_src} honest sources agree the clock is off by {scenario_d} s (3x the startup threshold) but stopped={stopped}, steps={:?}",
+                    steps.iter().map(|d| fixed_to_secs(*d)).collect::<Vec<_>>()
+                );
+            } else {
+                probe("scenario-inside-threshold");
+                // the correction may be split over several steps and slews (leftover rule):
+                // judge the remaining error of the client clock against true time
+                let remaining = remaining_at_end;
+                let total: f64 = steps.iter().map(|d| fixed_to_secs(*d)).sum();
+                check!(
+                    "C01",
+                    "offset-inside-startup-threshold-is-corrected",
+                    !stopped && !steps.is_empty() && remaining.abs() <= 0.1 * scenario_d.abs() + 0.05,
+                    "all {n_src} honest sources agree the clock is off by {scenario_d} s (inside the startup threshold) but stopped={stopped}, steps sum={total}, remaining error={remaining}"
+                );
             }
         }
         // C37 completeness: once quiescent, every usability change and drop was processed
